@@ -521,3 +521,14 @@ def run(cx):
         gb = cx.body("anemo::config::Config::connectivity_check_interval")
         t = Origins(gb).of_local(0)
         ob.require(mentions_field(t, "connectivity_check_interval_ms"), "config/interval", f"connectivity_check_interval = {show(t)[:100]}", gb.path)
+
+    with cx.ob("C13.6", "R-WRITERS", "one layer out: the dial bookkeeping (backoff states incl. attempt counts, pending dials) is written only by the connectivity check itself - no other event (an inbound connection, an explicit dial, a disconnect) clears or advances it") as ob:
+        MGR_ = f"{CM}::ConnectionManager"
+        for fld in ("dial_backoff_states", "pending_dials"):
+            check_field_writers(ob, prog, MGR_, fld, [HC, f"{MGR_}::new"], crates=["anemo"], kinds=("mutref", "write", "move"), floor=1)
+        # DialBackoffState's own fields change only in its two methods
+        for fld in ("backoff", "attempts"):
+            check_field_writers(ob, prog, BS, fld, [f"{BS}::new", f"{BS}::update"], crates=["anemo"], kinds=("mutref", "write"))
+
+    with cx.ob("C13.7", "R-WRITERS", "one layer out: interval, backoff step, backoff cap and connecting cap are never rewritten after the Config was built") as ob:
+        check_config_immutable(ob, prog, ["connectivity_check_interval_ms", "connection_backoff_ms", "max_connection_backoff_ms", "max_concurrent_outstanding_connecting_connections"])
